@@ -118,6 +118,19 @@ def run(ctx, n, have_model, max_depth=8):
             if r != "1":
                 ctx.correspondence_failure({"doc": d, "text": t, "core_shape_check": r},
                                            "hypothesis of parse_core_doc: model lexer on emit(d) does not have the shape doc_sh d")
+        dom = run_driver("syn", ["domains " + astcodec.enc_doc(d) for d in docs])
+        for d, t, r, dm in zip(docs, texts, res, dom):
+            bits = int(dm) if dm.isdigit() else -1
+            ctx.hist("theorem_domain", {7: "core+lex_safe+strict_safe", 5: "core+strict_safe (not lex_safe)", 3: "core+lex_safe",
+                                        1: "core only"}.get(bits, f"bits={bits}"))
+            if bits & 3 == 3 and r != "1":
+                ctx.correspondence_failure({"doc": d, "text": t}, "document in the domain of lex_emit_core but the extracted lexer "
+                                           "model does not produce the shape: theorem and extraction disagree")
+        strict = run_driver("syn", ["strict " + enc_str(t) for t in texts])
+        for d, t, dm, sr in zip(docs, texts, dom, strict):
+            if dm.isdigit() and int(dm) & 4 and sr != "1":
+                ctx.property_failure({"stream": "core-fragment", "doc": d, "text": t},
+                                     "core fragment: canonical text of a strict_safe document is not in the strict profile")
         bad, nl = lexcorr.compare(texts)
         ctx.count(nl)
         for t, i, m in bad[:10]:
